@@ -107,7 +107,13 @@ pub open spec fn spec_hash_bl(c: crate::params::HashChoice) -> int {
     match c { crate::params::HashChoice::SHA256 => 64, crate::params::HashChoice::SHA512 => 128, crate::params::HashChoice::Blake2s => 64, crate::params::HashChoice::Blake2b => 128 }
 }
 pub open spec fn spec_cipher_id(c: crate::params::CipherChoice) -> int {
-    match c { crate::params::CipherChoice::ChaChaPoly => 1, crate::params::CipherChoice::AESGCM => 2, _ => other_cipher_choice(c) }
+    match c {
+        crate::params::CipherChoice::ChaChaPoly => 1, crate::params::CipherChoice::AESGCM => 2,
+        #[cfg(feature = "use-xchacha20poly1305")]
+        crate::params::CipherChoice::XChaChaPoly => 3,
+        #[allow(unreachable_patterns)]
+        _ => other_cipher_choice(c),
+    }
 }
 // randomness model: an RNG is a hidden state; the bytes it returns and its next state are functions of that state
 pub uninterp spec fn gen_bytes(rng_state: int, n: int) -> Seq<u8>;
